@@ -38,7 +38,7 @@ static std::string str(const String& s) { return std::string((const char*)s, s.l
 
 static void compareTrees(const char* after) {
   Host h;
-  std::string a = simfs::snapshot("t") + "--- outside:\n" + simfs::snapshot("o"), b = mapOutside(simfs::snapshot("m")) + "--- outside:\n" + simfs::snapshot("p");
+  std::string a = simfs::snapshot("t") + "--- outside:\n" + simfs::snapshot("o"), b = mapOutside(simfs::snapshot("m")) + "--- outside:\n" + mapOutside(simfs::snapshot("p"));
   if (a != b) { char cls[96]; snprintf(cls, sizeof cls, "C19/tree_differs_from_reference/%s", after); fail(cls, "after %s (op #%d) the tree differs from the same operation done with plain POSIX calls.\n--- libnstd tree:\n%s--- reference tree:\n%s", after, C.opIndex, a.c_str(), b.c_str()); }
 }
 static void checkOutside(const char* after) {
@@ -51,7 +51,7 @@ static void checkFailedOp(const char* what, const std::vector<simfs::Entry>& pre
   for (auto& e : post) {
     const simfs::Entry* old = 0; for (auto& p : pre) if (p.path == e.path) old = &p;
     if (!old && e.path == dest && simfs::faultedCalls().find("unlink") != std::string::npos) { probe("cleanup_unlink_failed"); continue; }   // the library's own clean-up was hit by the injected fault
-    if (!old && dest != "*" && simfs::sameFile(("t/" + e.path).c_str(), ("t/" + dest).c_str())) { probe("new_file_through_dangling_link_destination"); continue; }   // the destination was a dangling link: its target is the destination
+    if (!old && dest != "*" && e.path != dest && simfs::sameFile(("t/" + e.path).c_str(), ("t/" + dest).c_str())) { probe("new_file_through_dangling_link_destination"); continue; }   // the destination was a dangling link: its target is the destination
     if (!old) { char cls[96]; snprintf(cls, sizeof cls, "C19/failed_op_left_new_file/%s", what); fail(cls, "%s reported failure (op #%d) but left the new path '%s' behind", what, C.opIndex, e.path.c_str()); }
     if ((old->kind != e.kind || old->data != e.data) && e.path != dest && dest != "*" && !simfs::sameFile(("t/" + e.path).c_str(), ("t/" + dest).c_str())) { char cls[96]; snprintf(cls, sizeof cls, "C19/failed_op_changed_other_file/%s", what); fail(cls, "%s reported failure (op #%d) but changed '%s'", what, C.opIndex, e.path.c_str()); }
     if (e.path == dest && old->kind == 'f' && e.kind == 'f' && e.data != old->data) probe("failed_op_partial_destination");
@@ -200,8 +200,9 @@ static void doOp(const Op& op) {
   case D_CREATE: {
     bool ok = Directory::create(S(T(n1)));
     Host h; bool isdir = simfs::rStatIsDir(T(n1).c_str()) != 0;
-    // under an injected fault the library may be unable to see an existing directory (its own stat() failed): then only "true must be truthful" is demanded
-    if (ok != isdir && (!faulted() || ok)) fail("C19/create_result", "Directory::create('%s') returned %d but the directory %s afterwards%s", n1.c_str(), ok, isdir ? "exists" : "does not exist", faulted() ? " (under an injected fault)" : "");
+    // under an injected fault the library may be unable to see an existing directory, but only if its own FINAL stat() was the call that failed
+    bool blind = faulted() && !ok && simfs::lastCallWasFaulted("stat");   // its final existence check itself was the call that failed
+    if (ok != isdir && !blind) fail("C19/create_result", "Directory::create('%s') returned %d but the directory %s afterwards%s", n1.c_str(), ok, isdir ? "exists" : "does not exist", faulted() ? " (under an injected fault)" : "");
     if (faulted()) { C.stop = true; return; }
     simfs::mkdirs(M(n1));
     break; }
@@ -211,7 +212,7 @@ static void doOp(const Op& op) {
     bool rec = op.a[2] % 2; bool ok = Directory::unlink(S(T(n1)), rec);
     if (!viaLink) checkOutside(what); else probe("unlink_path_through_link");
     { Host h; std::vector<simfs::Entry> post = simfs::list("t"); std::string pfx = n1 + "/";
-      for (auto& p : pre) { if (p.path == n1 || p.path.compare(0, pfx.size(), pfx) == 0) continue; const simfs::Entry* now = 0; for (auto& e : post) if (e.path == p.path) now = &e; if (!now || now->kind != p.kind || now->data != p.data) fail("C19/unlink_touched_outside_subtree", "Directory::unlink('%s') changed '%s' which is outside that directory", n1.c_str(), p.path.c_str()); }
+      if (!viaLink) for (auto& p : pre) { if (p.path == n1 || p.path.compare(0, pfx.size(), pfx) == 0) continue; const simfs::Entry* now = 0; for (auto& e : post) if (e.path == p.path) now = &e; if (!now || now->kind != p.kind || now->data != p.data) fail("C19/unlink_touched_outside_subtree", "Directory::unlink('%s') changed '%s' which is outside that directory", n1.c_str(), p.path.c_str()); }
       if (ok && simfs::kindOf(T(n1)) != 0) fail("C19/unlink_result", "Directory::unlink('%s') returned true but the path still exists", n1.c_str()); }
     if (faulted()) { C.stop = true; return; }
     Host h; bool rok = simfs::kindOf(M(n1)) == 'd' && (rec ? simfs::removeTree(M(n1)) : simfs::rRmdir(M(n1).c_str()) == 0);
